@@ -122,7 +122,7 @@ impl<'a> Gen<'a> {
                 let (l, n) = self.rng.pick(&sc.lists).clone();
                 self.note("e:list-chain");
                 match self.rng.below(5) {
-                    0 => E::Chain(Box::new(E::Var(l)), vec![Link::Method("size".into(), vec![])]),
+                    0 => E::Chain(Box::new(E::Var(l)), vec![Link::Method("count".into(), vec![])]),
                     1 => E::Chain(Box::new(E::Var(l)), vec![Link::Method("first".into(), vec![])]),
                     2 => E::Chain(Box::new(E::Var(l)), vec![Link::Index(E::Int(self.rng.below(n) as i64))]),
                     3 => {
@@ -148,7 +148,7 @@ impl<'a> Gen<'a> {
                                     )],
                                 ),
                                 Link::Method("to_list".into(), vec![]),
-                                Link::Method("size".into(), vec![]),
+                                Link::Method("count".into(), vec![]),
                             ],
                         )
                     }
@@ -198,7 +198,7 @@ impl<'a> Gen<'a> {
             6 if !sc.strs.is_empty() => {
                 let s = self.rng.pick(&sc.strs).clone();
                 self.note("e:str-size");
-                E::Chain(Box::new(E::Var(s)), vec![Link::Method("size".into(), vec![])])
+                E::Chain(Box::new(E::Var(s)), vec![Link::Method("count".into(), vec![])])
             }
             _ => {
                 let l = self.int(sc, d - 1);
